@@ -102,9 +102,9 @@ func TestC04(t *testing.T) {
 		// localhost loopback part (its own small worlds); counted into the same evidence
 	}()
 	runPktWith(t, "C04", func(c *kit.Check) {
-		c.Floor("localhost_timeout_attempts", 100)
-		c.Floor("localhost_timeout_rejected", 60)
-		c.Floor("localhost_honest_timeouts", 10)
+		c.Floor("localhost_timeout_attempts", 50)
+		c.Floor("localhost_timeout_rejected", 30)
+		c.Floor("localhost_honest_timeouts", 6)
 		n := c.N(12, 20)
 		for i := 0; i < n; i++ {
 			r := kit.NewRng(c.Seed, "C04-localhost", c.CaseID(i))
